@@ -409,6 +409,7 @@ fn gen_sched(prop: &str, case: &mut Case, w: &mut Rng, k: &mut Rng, knobs: &mut 
     // ---- sessions
     let nsess = 2 + w.usize(2);
     let budget = if prop == "C10" { 4 } else { 3 };
+    let mut insert_select_used = false;
     for _ in 0..nsess {
         let mut st = vec![];
         for _ in 0..(1 + w.usize(budget)) {
@@ -430,9 +431,18 @@ fn gen_sched(prop: &str, case: &mut Case, w: &mut Rng, k: &mut Rng, knobs: &mut 
                     } else if x < 55 {
                         // an INSERT of several chunks (one per row-set of its source): with a
                         // small row-set size it writes several row-sets, which must become
-                        // visible together
-                        let from = names[w.usize(names.len())].clone();
-                        Stmt::InsertSelect { table: t, from, pred: Pred::default() }
+                        // visible together. At most one per run and from another table: every
+                        // row of a table stays unique, so that the checker can tell which row
+                        // an overlapping DELETE removed.
+                        let others: Vec<&String> = names.iter().filter(|n| **n != t).collect();
+                        if insert_select_used || others.is_empty() {
+                            let cnt = 1 + w.usize(4);
+                            Stmt::Insert { table: t, cols: vec![], rows: fresh_rows(w, &mut next, cnt) }
+                        } else {
+                            insert_select_used = true;
+                            let from = others[w.usize(others.len())].clone();
+                            Stmt::InsertSelect { table: t, from, pred: Pred::default() }
+                        }
                     } else if x < 80 {
                         Stmt::Delete {
                             table: t,
